@@ -27,6 +27,48 @@ CondKinds == {"if", "ifdef", "ifndef", "elif", "else", "endif"}
 ItemKinds == {"instr", "data", "byte", "org", "seg", "set", "def", "undef", "call"}
 
 -----------------------------------------------------------------------------
+(* Macro parameters: @i stands for the i-th argument of the call,          *)
+(* substituted as a unit (on the syntax tree).  A parameter without        *)
+(* argument leaves a marker; it is an error where the line is assembled or *)
+(* the condition evaluated, not in an unselected branch.                   *)
+
+HasArg(args, i) == i + 1 <= Len(args)
+BadAst == [t |-> "bad"]
+RECURSIVE SubstE(_, _)
+SubstE(a, args) ==
+  CASE a.t = "arg" -> IF HasArg(args, a.i) /\ args[a.i + 1].k = "e"
+                      THEN [t |-> "par", e |-> args[a.i + 1].e] ELSE BadAst
+    [] a.t \in {"un", "fn", "par"} -> [a EXCEPT !.e = SubstE(a.e, args)]
+    [] a.t = "bin" -> [a EXCEPT !.l = SubstE(a.l, args), !.r = SubstE(a.r, args)]
+    [] OTHER -> a
+RECURSIVE Bad(_)
+Bad(a) == CASE a.t = "bad" -> TRUE
+            [] a.t \in {"un", "fn", "par"} -> Bad(a.e)
+            [] a.t = "bin" -> Bad(a.l) \/ Bad(a.r)
+            [] OTHER -> FALSE
+
+SubstOp(o, args) ==
+  CASE o.k = "arg" -> IF HasArg(args, o.i) THEN args[o.i + 1] ELSE [k |-> "bad"]
+    [] o.k = "e"   -> [o EXCEPT !.e = SubstE(o.e, args)]
+    [] o.k = "ix"  -> IF o.mode = "disp" THEN [o EXCEPT !.q = SubstE(o.q, args)] ELSE o
+    [] OTHER -> o
+BadOp(o) == o.k = "bad" \/ (o.k = "e" /\ Bad(o.e)) \/ (o.k = "ix" /\ o.mode = "disp" /\ Bad(o.q))
+
+SubstSeq(s, args) == [i \in 1..Len(s) |-> SubstOp(s[i], args)]
+SubstLine(line, args) ==
+  CASE line.k = "instr" -> [line EXCEPT !.ops = SubstSeq(@, args)]
+    [] line.k = "call"  -> [line EXCEPT !.args = SubstSeq(@, args)]
+    [] line.k = "data"  -> [line EXCEPT !.elems = SubstSeq(@, args)]
+    [] line.k \in {"if", "elif", "equ", "set", "org", "byte"} -> [line EXCEPT !.e = SubstE(@, args)]
+    [] OTHER -> line
+BadLine(line) ==
+  CASE line.k = "instr" -> \E i \in 1..Len(line.ops) : BadOp(line.ops[i])
+    [] line.k = "call"  -> \E i \in 1..Len(line.args) : BadOp(line.args[i])
+    [] line.k = "data"  -> \E i \in 1..Len(line.elems) : BadOp(line.elems[i])
+    [] line.k \in {"if", "elif", "equ", "set", "org", "byte"} -> Bad(line.e)
+    [] OTHER -> FALSE
+
+-----------------------------------------------------------------------------
 (* Reading: conditionals, macro recording, parse-time directives.          *)
 
 Frame(b) == [active |-> b, taken |-> b, else |-> FALSE]
@@ -74,7 +116,8 @@ CondStep(rs, line) ==
          IF n = 0 THEN Fail(rs, line.ln) ELSE [rs EXCEPT !.cond = SubSeq(c, 1, n - 1)]
 
 ExecStep(rs, line) ==
-  CASE line.k = "blank" -> WithLabel(rs, line)
+  CASE BadLine(line) -> Fail(rs, line.ln)     \* a macro parameter without argument, in a line that is assembled
+    [] line.k = "blank" -> WithLabel(rs, line)
     [] line.k \in ItemKinds -> EmitItem(rs, line)
     [] line.k = "equ"    -> [WithLabel(rs, line) EXCEPT !.equs = (line.n :> line.e) @@ @]
     [] line.k = "define" -> [rs EXCEPT !.defines = @ \cup {line.n}]
@@ -106,45 +149,6 @@ ReadFrom(rs, lines, i) == IF i > Len(lines) THEN rs ELSE ReadFrom(StepRead(rs, l
 ReadLines(rs, lines) == ReadFrom(rs, lines, 1)
 
 -----------------------------------------------------------------------------
-(* Macro expansion: the body with @i standing for the i-th argument,       *)
-(* substituted as a unit (on the syntax tree).                             *)
-
-HasArg(args, i) == i + 1 <= Len(args)
-BadAst == [t |-> "bad"]
-RECURSIVE SubstE(_, _)
-SubstE(a, args) ==
-  CASE a.t = "arg" -> IF HasArg(args, a.i) /\ args[a.i + 1].k = "e"
-                      THEN [t |-> "par", e |-> args[a.i + 1].e] ELSE BadAst
-    [] a.t \in {"un", "fn", "par"} -> [a EXCEPT !.e = SubstE(a.e, args)]
-    [] a.t = "bin" -> [a EXCEPT !.l = SubstE(a.l, args), !.r = SubstE(a.r, args)]
-    [] OTHER -> a
-RECURSIVE Bad(_)
-Bad(a) == CASE a.t = "bad" -> TRUE
-            [] a.t \in {"un", "fn", "par"} -> Bad(a.e)
-            [] a.t = "bin" -> Bad(a.l) \/ Bad(a.r)
-            [] OTHER -> FALSE
-
-SubstOp(o, args) ==
-  CASE o.k = "arg" -> IF HasArg(args, o.i) THEN args[o.i + 1] ELSE [k |-> "bad"]
-    [] o.k = "e"   -> [o EXCEPT !.e = SubstE(o.e, args)]
-    [] o.k = "ix"  -> IF o.mode = "disp" THEN [o EXCEPT !.q = SubstE(o.q, args)] ELSE o
-    [] OTHER -> o
-BadOp(o) == o.k = "bad" \/ (o.k = "e" /\ Bad(o.e)) \/ (o.k = "ix" /\ o.mode = "disp" /\ Bad(o.q))
-
-SubstSeq(s, args) == [i \in 1..Len(s) |-> SubstOp(s[i], args)]
-SubstLine(line, args) ==
-  CASE line.k = "instr" -> [line EXCEPT !.ops = SubstSeq(@, args)]
-    [] line.k = "call"  -> [line EXCEPT !.args = SubstSeq(@, args)]
-    [] line.k = "data"  -> [line EXCEPT !.elems = SubstSeq(@, args)]
-    [] line.k \in {"if", "elif", "equ", "set", "org", "byte"} -> [line EXCEPT !.e = SubstE(@, args)]
-    [] OTHER -> line
-BadLine(line) ==
-  CASE line.k = "instr" -> \E i \in 1..Len(line.ops) : BadOp(line.ops[i])
-    [] line.k = "call"  -> \E i \in 1..Len(line.args) : BadOp(line.args[i])
-    [] line.k = "data"  -> \E i \in 1..Len(line.elems) : BadOp(line.elems[i])
-    [] line.k \in {"if", "elif", "equ", "set", "org", "byte"} -> Bad(line.e)
-    [] OTHER -> FALSE
-
 MaxDepth == 4
 RECURSIVE ExpandSeq(_, _, _, _)
 ExpandSeq(rs, items, i, depth) ==           \* rs.items accumulates the expanded items
@@ -153,10 +157,9 @@ ExpandSeq(rs, items, i, depth) ==           \* rs.items accumulates the expanded
        IF it.k # "call" THEN ExpandSeq([rs EXCEPT !.items = Append(@, it)], items, i + 1, depth)
        ELSE IF it.n \notin DOMAIN rs.macros \/ depth = 0 THEN Fail(rs, it.ln)
        ELSE LET body == [j \in 1..Len(rs.macros[it.n]) |-> SubstLine(rs.macros[it.n][j], it.args)] IN
-            IF \E j \in 1..Len(body) : BadLine(body[j]) THEN Fail(rs, it.ln)
-            ELSE LET r1 == ReadLines([rs EXCEPT !.items = << >>, !.cond = << >>], body)
+            LET r1 == ReadLines([rs EXCEPT !.items = << >>, !.cond = << >>], body)
                      r2 == ExpandSeq([r1 EXCEPT !.items = rs.items, !.cond = rs.cond], r1.items, 1, depth - 1)
-                 IN ExpandSeq(r2, items, i + 1, depth)
+            IN ExpandSeq(r2, items, i + 1, depth)
 ExpandAll(rs) == IF rs.err # 0 THEN rs ELSE ExpandSeq([rs EXCEPT !.items = << >>], rs.items, 1, MaxDepth)
 
 -----------------------------------------------------------------------------
